@@ -24,6 +24,7 @@
 package main
 
 import (
+	"bytes"
 	"context"
 	"errors"
 	"fmt"
@@ -46,6 +47,7 @@ import (
 	"github.com/brimdata/super/runtime/sam/op/fuse"
 	"github.com/brimdata/super/zbuf"
 	"github.com/brimdata/super/zio"
+	"github.com/brimdata/super/zio/zngio"
 	"github.com/brimdata/super/zson"
 
 	"verif/core"
@@ -82,45 +84,67 @@ type env struct {
 }
 
 // report collects what one case has to tell core.Ctx.  Cases are replayed by
-// several goroutines; their reports are flushed in case order so that the
-// run (which witness is kept per signature, the samples, the drift list) is
+// several goroutines (and, for the poisoned ZNG input stage, by a child
+// process); their reports are flushed in case order so that the run (which
+// witness is kept per signature, the samples, the drift list) is
 // deterministic for a seed.
+type act struct {
+	Kind string  `json:"kind"` // violate | drift | inconclusive | eval | add | sample
+	Sig  string  `json:"sig,omitempty"`
+	Msg  string  `json:"msg,omitempty"`
+	W    witness `json:"w,omitempty"`
+	Flag bool    `json:"flag,omitempty"`
+	N    int64   `json:"n,omitempty"`
+	V    any     `json:"v,omitempty"`
+}
+
 type report struct {
-	acts []func(c *core.Ctx)
+	Acts  []act `json:"acts"`
 	nviol int
 }
 
 func (r *report) violate(sig, what string, w witness) {
 	r.nviol++
-	r.acts = append(r.acts, func(c *core.Ctx) { c.Violate(sig, what, w) })
+	r.Acts = append(r.Acts, act{Kind: "violate", Sig: sig, Msg: what, W: w})
 }
 func (r *report) drift(format string, a ...any) {
-	msg := fmt.Sprintf(format, a...)
-	r.acts = append(r.acts, func(c *core.Ctx) { c.Drift("%s", msg) })
+	r.Acts = append(r.Acts, act{Kind: "drift", Msg: fmt.Sprintf(format, a...)})
 }
 func (r *report) inconclusive(format string, a ...any) {
-	msg := fmt.Sprintf(format, a...)
-	r.acts = append(r.acts, func(c *core.Ctx) { c.Inconclusive("%s", msg) })
+	r.Acts = append(r.Acts, act{Kind: "inconclusive", Msg: fmt.Sprintf(format, a...)})
 }
 func (r *report) eval(key string, nontrivial bool) {
-	r.acts = append(r.acts, func(c *core.Ctx) { c.Eval(key, nontrivial) })
+	r.Acts = append(r.Acts, act{Kind: "eval", Msg: key, Flag: nontrivial})
 }
 func (r *report) add(key string, n int64) {
-	r.acts = append(r.acts, func(c *core.Ctx) { c.Add(key, n) })
+	r.Acts = append(r.Acts, act{Kind: "add", Msg: key, N: n})
 }
 func (r *report) sample(v any) {
-	r.acts = append(r.acts, func(c *core.Ctx) { c.Sample(v) })
+	r.Acts = append(r.Acts, act{Kind: "sample", V: v})
 }
 func (r *report) flush(c *core.Ctx) {
-	for _, a := range r.acts {
-		a(c)
+	for _, a := range r.Acts {
+		switch a.Kind {
+		case "violate":
+			c.Violate(a.Sig, a.Msg, a.W)
+		case "drift":
+			c.Drift("%s", a.Msg)
+		case "inconclusive":
+			c.Inconclusive("%s", a.Msg)
+		case "eval":
+			c.Eval(a.Msg, a.Flag)
+		case "add":
+			c.Add(a.Msg, a.N)
+		case "sample":
+			c.Sample(a.V)
+		}
 	}
-	r.acts = nil
+	r.Acts = nil
 }
 
 // runFlow runs program over vals on the real runtime (compiled and optimized
 // as the product does) and returns copies of the output values.
-func (e *env) runFlow(zctx *zed.Context, program string, vals []zed.Value, mem int) (out []zed.Value, err error) {
+func (e *env) runFlow(zctx *zed.Context, program string, vals []zed.Value, mem int, viaZNG bool) (out []zed.Value, err error) {
 	ctx, cancel := context.WithTimeout(e.ctx, 60*time.Second)
 	defer cancel()
 	defer func() {
@@ -141,9 +165,28 @@ func (e *env) runFlow(zctx *zed.Context, program string, vals []zed.Value, mem i
 	if err := job.Optimize(); err != nil {
 		return nil, err
 	}
+	// The input is either an in-memory array of values, or a ZNG stream read by the real
+	// zngio scanner, whose buffers are recycled and (verif.PoisonFreed) overwritten when a
+	// batch is released -- an operator that keeps a reference into a released batch shows.
+	var reader zio.Reader = zbuf.NewArray(append([]zed.Value(nil), vals...))
+	if viaZNG {
+		var buf bytes.Buffer
+		w := zngio.NewWriter(zio.NopCloser(&buf))
+		for _, v := range vals {
+			if err := w.Write(v); err != nil {
+				return nil, fmt.Errorf("harness: zng write: %w", err)
+			}
+		}
+		if err := w.Close(); err != nil {
+			return nil, fmt.Errorf("harness: zng close: %w", err)
+		}
+		zr := zngio.NewReader(zctx, bytes.NewReader(buf.Bytes()))
+		defer zr.Close()
+		reader = zr
+	}
 	e.buildMu.Lock()
 	fuse.MemMaxBytes = mem // read by fuse.New while the flow graph is built
-	err = job.Build(zio.Reader(zbuf.NewArray(append([]zed.Value(nil), vals...))))
+	err = job.Build(reader)
 	fuse.MemMaxBytes = e.defMem
 	e.buildMu.Unlock()
 	if err != nil {
@@ -175,17 +218,17 @@ type observation struct {
 	aggType zed.Type
 }
 
-func (e *env) observe(zctx *zed.Context, ins []input, mem int) (*observation, error) {
+func (e *env) observe(zctx *zed.Context, ins []input, mem int, viaZNG bool) (*observation, error) {
 	vals := make([]zed.Value, len(ins))
 	for i := range ins {
 		vals[i] = ins[i].val
 	}
-	outs, err := e.runFlow(zctx, "fuse", vals, mem)
+	outs, err := e.runFlow(zctx, "fuse", vals, mem, viaZNG)
 	if err != nil {
 		return nil, fmt.Errorf("fuse: %w", err)
 	}
 	o := &observation{outs: outs}
-	agg, err := e.runFlow(zctx, "fuse(this)", vals, mem)
+	agg, err := e.runFlow(zctx, "fuse(this)", vals, mem, viaZNG)
 	if err != nil {
 		return nil, fmt.Errorf("fuse(this): %w", err)
 	}
@@ -204,6 +247,7 @@ type witness struct {
 	Ins   []term      `json:"ins,omitempty"`
 	Seed  int64       `json:"seed"`
 	Mem   int         `json:"mem"`
+	ZNG   bool        `json:"zng,omitempty"` // input read through zngio (buffers poisoned on release)
 	Input []fuserItem `json:"input,omitempty"`
 	// informational
 	Values  []string `json:"values,omitempty"`
@@ -211,10 +255,20 @@ type witness struct {
 	AggType string   `json:"agg_type,omitempty"`
 }
 
+// format renders a value; an output whose bytes do not fit its type can make the formatter panic.
+func format(v zed.Value) (s string) {
+	defer func() {
+		if r := recover(); r != nil {
+			s = fmt.Sprintf("<unformattable value of type %s, bytes %x: %v>", zson.FormatType(v.Type()), []byte(v.Bytes()), r)
+		}
+	}()
+	return zson.FormatValue(v)
+}
+
 func formatAll(vals []zed.Value) []string {
 	var out []string
 	for _, v := range vals {
-		out = append(out, zson.FormatValue(v))
+		out = append(out, format(v))
 	}
 	return out
 }
@@ -225,7 +279,7 @@ func (e *env) oracle(r *report, ins []input, inTypes []zed.Type, o *observation,
 	n := 0
 	w.AggType = zson.FormatType(o.aggType)
 	for i := range ins {
-		w.Values = append(w.Values, zson.FormatValue(ins[i].val))
+		w.Values = append(w.Values, format(ins[i].val))
 	}
 	w.Outputs = formatAll(o.outs)
 	violate := func(sig, what string) {
@@ -256,7 +310,7 @@ func (e *env) oracle(r *report, ins []input, inTypes []zed.Type, o *observation,
 				inT := ins[i].val.Type()
 				violate("nonuniform:"+sigClass(inT, o.aggType),
 					fmt.Sprintf("output %d of fuse has type %s, not the fused type %s (input value %s of type %s)",
-						i, zson.FormatType(o.outs[i].Type()), zson.FormatType(o.aggType), zson.FormatValue(ins[i].val), zson.FormatType(inT)))
+						i, zson.FormatType(o.outs[i].Type()), zson.FormatType(o.aggType), format(ins[i].val), zson.FormatType(inT)))
 				break
 			}
 		}
@@ -272,10 +326,15 @@ func (e *env) oracle(r *report, ins []input, inTypes []zed.Type, o *observation,
 	for i := range o.outs {
 		inLeaves, inShape, inSets := leavesOfAs(ins[i].val, nil)
 		if !equalStrings(inLeaves, ins[i].leaves) {
-			r.inconclusive("harness: generator and walker disagree on the leaves of %s: %v vs %v", zson.FormatValue(ins[i].val), ins[i].leaves, inLeaves)
+			r.inconclusive("harness: generator and walker disagree on the leaves of %s: %v vs %v", format(ins[i].val), ins[i].leaves, inLeaves)
 			return n
 		}
-		outLeaves, outShape, _ := leavesOfAs(o.outs[i], inSets)
+		outLeaves, outShape, _, malformed := safeLeaves(o.outs[i], inSets)
+		if malformed != "" {
+			violate("malformed-output", fmt.Sprintf("output %d of fuse (input %s) cannot be decoded as a value of its type %s: %s",
+				i, format(ins[i].val), zson.FormatType(o.outs[i].Type()), malformed))
+			break
+		}
 		if !equalStrings(inLeaves, outLeaves) {
 			lost, extra := diffStrings(inLeaves, outLeaves, 3)
 			inT := ins[i].val.Type()
@@ -284,14 +343,30 @@ func (e *env) oracle(r *report, ins []input, inTypes []zed.Type, o *observation,
 				sig = "lossy:error-output:" + sigClass(inT, o.aggType)
 			}
 			violate(sig, fmt.Sprintf("output %d of fuse, %s, does not carry the leaves of input %d, %s: missing %v, not from this input %v",
-				i, zson.FormatValue(o.outs[i]), i, zson.FormatValue(ins[i].val), lost, extra))
+				i, format(o.outs[i]), i, format(ins[i].val), lost, extra))
 			break
 		}
 		if !equalStrings(inShape, outShape) {
-			r.drift("structure: input %s became %s (same leaves, different empty containers/records)", zson.FormatValue(ins[i].val), zson.FormatValue(o.outs[i]))
+			r.drift("structure: input %s became %s (same leaves, different empty containers/records)", format(ins[i].val), format(o.outs[i]))
 		}
 	}
 	return n
+}
+
+// safeLeaves walks an output value; bytes that do not fit the type make the walk panic.
+func safeLeaves(v zed.Value, asSets map[string]bool) (leaves, shape []string, sets map[string]bool, malformed string) {
+	defer func() {
+		if r := recover(); r != nil {
+			malformed = fmt.Sprint(r)
+		}
+	}()
+	leaves, shape, sets = leavesOfAs(v, asSets)
+	for _, l := range leaves {
+		if strings.Contains(l, "|!short-record|") || strings.Contains(l, "|!odd-map|") {
+			return leaves, shape, sets, l
+		}
+	}
+	return leaves, shape, sets, ""
 }
 
 // sigClass gives the signature class of a value type against the fused type.
@@ -332,9 +407,10 @@ func (e *env) checkCase(tc *typeCase, idx int, seed int64, mems []int) (r *repor
 		}
 	}
 	var first *observation
-	for _, mem := range mems {
-		o, err := e.observe(zctx, ins, mem)
-		w := witness{Kind: "types", Ins: tc.Ins, Seed: seed, Mem: mem}
+	for mi, mem := range mems {
+		viaZNG := (idx+mi)%2 == 1
+		o, err := e.observe(zctx, ins, mem, viaZNG)
+		w := witness{Kind: "types", Ins: tc.Ins, Seed: seed, Mem: mem, ZNG: viaZNG}
 		if err != nil {
 			var pe *os.PathError
 			if errors.As(err, &pe) || errors.Is(err, context.DeadlineExceeded) {
@@ -366,7 +442,7 @@ func (e *env) checkCase(tc *typeCase, idx int, seed int64, mems []int) (r *repor
 				if first.outs[i].Type() != o.outs[i].Type() || string(first.outs[i].Bytes()) != string(o.outs[i].Bytes()) ||
 					(first.outs[i].Bytes() == nil) != (o.outs[i].Bytes() == nil) {
 					r.violate("spill-differs", fmt.Sprintf("output %d of fuse over types %s is %s with MemMaxBytes=%d but %s with MemMaxBytes=%d",
-						i, typeList(inTypes), zson.FormatValue(first.outs[i]), mems[0], zson.FormatValue(o.outs[i]), mem), w)
+						i, typeList(inTypes), format(first.outs[i]), mems[0], format(o.outs[i]), mem), w)
 					break
 				}
 			}
@@ -382,7 +458,7 @@ func (e *env) checkCase(tc *typeCase, idx int, seed int64, mems []int) (r *repor
 func formatInputs(ins []input) []string {
 	var out []string
 	for i := range ins {
-		out = append(out, zson.FormatValue(ins[i].val))
+		out = append(out, format(ins[i].val))
 	}
 	return out
 }
@@ -413,11 +489,11 @@ func (e *env) bind(r *report, zctx *zed.Context, tc *typeCase, ins []input, o *o
 			if pred == nil {
 				if !o.outs[i].IsError() {
 					ok = false
-					r.drift("output type: %s: spec predicts an error value for %s, real output %s", tc.key(), zson.FormatValue(ins[i].val), zson.FormatValue(o.outs[i]))
+					r.drift("output type: %s: spec predicts an error value for %s, real output %s", tc.key(), format(ins[i].val), format(o.outs[i]))
 				}
 			} else if o.outs[i].Type() != pred {
 				ok = false
-				r.drift("output type: %s: spec predicts %s for %s, real output %s", tc.key(), zson.FormatType(pred), zson.FormatValue(ins[i].val), zson.FormatValue(o.outs[i]))
+				r.drift("output type: %s: spec predicts %s for %s, real output %s", tc.key(), zson.FormatType(pred), format(ins[i].val), format(o.outs[i]))
 			}
 		}
 	}
@@ -438,6 +514,7 @@ func run(c *core.Ctx) error {
 	if !verif.Enabled {
 		return errors.New("harness built without -tags verif")
 	}
+	verif.PoisonFreed.Store(true)
 	verif.SetHook(func(site string, args ...any) {
 		if site == "fuse.Fuser.spill" {
 			e.spills.Add(1)
@@ -507,7 +584,14 @@ func run(c *core.Ctx) error {
 					mems = append(mems, 1)
 				}
 				res := &results[i]
-				res.r, res.wantSpills, res.err = e.checkCase(&cases[i], i, c.Seed*1000003+int64(i), mems)
+				func() {
+					defer func() {
+						if r := recover(); r != nil {
+							res.err = fmt.Errorf("harness panic: %v", r)
+						}
+					}()
+					res.r, res.wantSpills, res.err = e.checkCase(&cases[i], i, c.Seed*1000003+int64(i), mems)
+				}()
 			}
 		}()
 	}
@@ -658,14 +742,14 @@ func (e *env) replay() error {
 			inTypes = append(inTypes, t)
 		}
 		ins := instantiate(inTypes, w.Seed)
-		o, err := e.observe(zctx, ins, w.Mem)
+		o, err := e.observe(zctx, ins, w.Mem, w.ZNG)
 		if err != nil {
 			e.c.Violate("query-error", err.Error(), w)
 			return nil
 		}
 		fmt.Printf("input:   %s\nfuse:    %s\nfuse():  %s\n", strings.Join(formatInputs(ins), " "), strings.Join(formatAll(o.outs), " "), zson.FormatType(o.aggType))
 		r := &report{}
-		e.oracle(r, ins, inTypes, o, witness{Kind: "types", Ins: w.Ins, Seed: w.Seed, Mem: w.Mem})
+		e.oracle(r, ins, inTypes, o, witness{Kind: "types", Ins: w.Ins, Seed: w.Seed, Mem: w.Mem, ZNG: w.ZNG})
 		r.flush(e.c)
 	}
 	return nil
